@@ -104,9 +104,30 @@ func init() {
 			if consume == nil {
 				consume = []int{}
 			}
-			obs := runPipe(frags, pipeCfg{streaming: true, consume: consume})
+			maxBody := 0
+			if len(in) > 5 {
+				maxBody = in.N(5) // MaxRequestBodySize: a streamed body over the limit is still handed to the handler
+			}
+			probeSeen := "GET /probe [Host=h] "
+			if maxBody > 0 {
+				// a long next request whose body looks like requests: bytes taken from its head would leave a tail that parses
+				wire = append(bytes.TrimSuffix(wire, []byte(c14Probe)), []byte("POST /probe HTTP/1.1\r\nHost: h\r\nContent-Length: 3000\r\n\r\n")...)
+				wire = append(wire, c14Body(3000)...)
+				probeSeen = "POST /probe [Host=h"
+				// leave a large body buffer in the pool: a buffered 70 000 byte upload served just before
+				runPipe([][]byte{c14Wire(c14Body(70000), nil)}, pipeCfg{streaming: false})
+				if in.N(3) <= 0 {
+					frags = [][]byte{wire}
+				} else {
+					frags = fragEvery(wire, in.N(3))
+				}
+			}
+			obs := runPipe(frags, pipeCfg{streaming: true, consume: consume, maxBody: maxBody})
 			var fs []Finding
 			bad := func(class, note string) {
+				if maxBody > 0 && len(body) > maxBody {
+					class = "over-limit-body:" + class // known finding D27
+				}
 				fs = append(fs, Finding{Kind: "oracle", Unit: "c14.stream", Class: class, Impl: truncate(obs.String(), 500), Note: note})
 			}
 			if obs.err != nil && strings.HasPrefix(obs.err.Error(), "PANIC") {
@@ -164,7 +185,7 @@ func init() {
 					bad("well-formed-probe-answered-with-an-error", fmt.Sprintf("status %d", rs[len(rs)-1].status))
 				}
 			case 2:
-				if !strings.HasPrefix(obs.handled[1], "GET /probe [Host=h] ") {
+				if !strings.HasPrefix(obs.handled[1], probeSeen) {
 					bad("unread-body-bytes-served-as-a-request", obs.handled[1])
 				}
 			default:
@@ -211,6 +232,15 @@ func init() {
 						for _, fr := range []int{0, 1, 4096} {
 							t.Do(In{Nn(n), S(chunks), S(reads), Nn(fr), Nn(badc)}, true)
 						}
+					}
+				}
+			}
+			// a fixed-length body larger than MaxRequestBodySize (streaming hands it to the handler all the same), after
+			// exchanges that left large body buffers in the pool, with the next request already in the socket
+			for _, n := range []int{100, 2000, 9000, 10500, 20000} {
+				for _, reads := range []string{"", "100", "8192", "9000,-1", "-1"} {
+					for _, fr := range []int{0, 4096} {
+						t.Do(In{Nn(n), S("-"), S(reads), Nn(fr), Nn(-1), Nn([]int{50, 8500}[b2i(n > 8500)])}, true)
 					}
 				}
 			}
